@@ -133,6 +133,20 @@ def run(ctx):
         ctx.count(kind + ':' + ('raise' if impl[0] == 'raise' else 'ok'))
         return True
 
+    # units are compared as they are: any two different units - the empty unit and no unit included - refuse a comparison
+    units = ['kg', 'm', '', None, 'KG', 'kg ', u'\u00b0C', '%', 0]
+    for ua in units:
+        for ub in units:
+            for (a, b) in ((1, 1), (0, 0), (1.5, 2), (0, 1)):
+                for name, f in CMPOPS.items():
+                    ctx.coverage['evaluations'] += 1
+                    got = attempt(f, Q(a, ua), Q(b, ub))
+                    same = (ua == ub) and (type(ua) is type(ub))
+                    want = attempt(f, a, b) if same else ('raise', 'TypeError')
+                    if got != want:
+                        ctx.violation('impl-counterexample', 'comparison %s of Quantity(%r, %r) with Quantity(%r, %r) gives %r, expected %r' % (name, a, ua, b, ub, got, want),
+                                      {'kind': 'cmp-units', 'op': name, 'a': repr(a), 'ua': repr(ua), 'b': repr(b), 'ub': repr(ub)})
+                        return
     for a in nums:
         qa = Q(a, u1)
         for b in nums:
